@@ -303,7 +303,7 @@ pub fn run(run: &mut Run) {
     run.par_shards("RAW(c) en-passant mark on every square x neighbourhood", 64, |ctx, sh| raw_c(ctx, sh));
     run.seq("RAW(d) men counts around the sixteen-men limit", |ctx| raw_d(ctx));
     // every valid position of the standard universes goes through acceptance + idempotence too
-    let sel = Sel { m3: true, ep: Some(false), castle: Some(false), promo: Some(false), reach: Some(3), counters: true, ..Default::default() };
+    let sel = Sel { m3: true, ep: Some(false), castle: Some(false), promo: Some(false), reach: Some(3), counters: true, multicheck: Some(if run.thorough() { 3 } else { 1 }), ..Default::default() };
     // here a model-valid position refused by owlchess is a violation, not a skip
     run_universes(run, &sel, DISAGREE, &check_pos);
     if run.total.cnt[DISAGREE] > 0 {
